@@ -619,6 +619,33 @@ func init() {
 				}
 				c.Cover("gc-during-encode")
 			}})
+			// thorough: every canonical graph with 5 nodes for four fillers, sharded by the root's two slots
+			if tier == "thorough" {
+				for _, fname := range []string{"none", "non-empty map", "by-value struct as first field", "one leaf object shared by all nodes"} {
+					var f filler
+					for _, x := range fl {
+						if x.name == fname {
+							f = x
+						}
+					}
+					for a := -1; a < 5; a++ {
+						f, a := f, a
+						us = append(us, core.Unit{Name: fmt.Sprintf("graphs5:%s:rootA=%d", f.name, a), Cost: 400, Run: func(c *core.Ctx) {
+							canonicalGraphs(5, func(edges []int) {
+								if edges[0] != a || !c.Begin() {
+									return
+								}
+								c.NontrivialN(1)
+								c.Res.States++
+								c.Res.Transitions += 10
+								root, _ := buildGraph(f, 5, edges)
+								c.Outcome(graphCheck(c, root, fmt.Sprintf("filler %q, 5 nodes: %s", f.name, edgeDesc(5, edges)), "filler:"+f.name))
+							})
+							c.Cover("graphs5")
+						}})
+					}
+				}
+			}
 			// pointers into the inside of other values of the graph: the first field of a struct and the first
 			// element of a slice have the address of the whole; they are different objects
 			us = append(us, core.Unit{Name: "interior", Cost: 5, Run: func(c *core.Ctx) {
